@@ -182,17 +182,17 @@ class SB:
         return ENG.branch(self.e)
 
     def __and__(self, o):
-        if isinstance(o, np.ndarray): return NotImplemented
+        if _nd(o): return _bcast(operator.and_, self, o)
         return SB(z3.And(self.e, tobool(o)))
     __rand__ = __and__
 
     def __or__(self, o):
-        if isinstance(o, np.ndarray): return NotImplemented
+        if _nd(o): return _bcast(operator.or_, self, o)
         return SB(z3.Or(self.e, tobool(o)))
     __ror__ = __or__
 
     def __xor__(self, o):
-        if isinstance(o, np.ndarray): return NotImplemented
+        if _nd(o): return _bcast(operator.xor, self, o)
         return SB(z3.Xor(self.e, tobool(o)))
     __rxor__ = __xor__
 
@@ -200,26 +200,26 @@ class SB:
     def logical_not(self): return SB(z3.Not(self.e))
     def _n(self): return SR(lift(self))
     def __mul__(self, o):
-        if isinstance(o, np.ndarray): return NotImplemented
+        if _nd(o): return _bcast(operator.mul, self, o)
         return self._n() * o
     __rmul__ = __mul__
     def __add__(self, o):
-        if isinstance(o, np.ndarray): return NotImplemented
+        if _nd(o): return _bcast(operator.add, self, o)
         return self._n() + o
     __radd__ = __add__
     def __sub__(self, o):
-        if isinstance(o, np.ndarray): return NotImplemented
+        if _nd(o): return _bcast(operator.sub, self, o)
         return self._n() - o
     def __rsub__(self, o):
-        if isinstance(o, np.ndarray): return NotImplemented
+        if _nd(o): return _bcast(_rsub, self, o)
         return SR(lift(o)) - self._n()
     def __neg__(self): return -self._n()
     def __eq__(self, o):
-        if isinstance(o, np.ndarray): return NotImplemented
+        if _nd(o): return _bcast(operator.eq, self, o)
         if isinstance(o, SB): return SB(self.e == o.e)
         return self._n() == o
     def __ne__(self, o):
-        if isinstance(o, np.ndarray): return NotImplemented
+        if _nd(o): return _bcast(operator.ne, self, o)
         if isinstance(o, SB): return SB(self.e != o.e)
         return self._n() != o
     def __lt__(self, o): return self._n() < o
@@ -231,6 +231,20 @@ class SB:
     def __index__(self): return 1 if bool(self) else 0
     def __repr__(self): return f'SB({self.e})'
     __hash__ = None
+
+
+import operator
+
+
+def _rsub(a, b): return b - a
+def _rtruediv(a, b): return b / a
+
+
+def _bcast(op, scalar, array):
+    """scalar (SR/SB) OP ndarray: broadcast through a 0-d object array so numpy applies OP element-wise"""
+    z = np.empty((), dtype=object)
+    z[()] = scalar
+    return op(z, array)
 
 
 def _nd(o):
@@ -245,24 +259,24 @@ class SR:
         self.e = e
 
     def __add__(self, o):
-        if _nd(o): return NotImplemented
+        if _nd(o): return _bcast(operator.add, self, o)
         return SR(self.e + lift(o))
     __radd__ = __add__
     def __sub__(self, o):
-        if _nd(o): return NotImplemented
+        if _nd(o): return _bcast(operator.sub, self, o)
         return SR(self.e - lift(o))
     def __rsub__(self, o):
-        if _nd(o): return NotImplemented
+        if _nd(o): return _bcast(_rsub, self, o)
         return SR(lift(o) - self.e)
     def __mul__(self, o):
-        if _nd(o): return NotImplemented
+        if _nd(o): return _bcast(operator.mul, self, o)
         return SR(self.e * lift(o))
     __rmul__ = __mul__
     def __truediv__(self, o):
-        if _nd(o): return NotImplemented
+        if _nd(o): return _bcast(operator.truediv, self, o)
         return quot(self.e, lift(o))
     def __rtruediv__(self, o):
-        if _nd(o): return NotImplemented
+        if _nd(o): return _bcast(_rtruediv, self, o)
         return quot(lift(o), self.e)
     def __neg__(self): return SR(-self.e)
     def __pos__(self): return self
@@ -312,23 +326,23 @@ class SR:
     def copy(self): return self
     def __abs__(self): return SR(z3.If(self.e >= 0, self.e, -self.e))
     def __lt__(self, o):
-        if _nd(o): return NotImplemented
+        if _nd(o): return _bcast(operator.lt, self, o)
         return SB(self.e < lift(o))
     def __le__(self, o):
-        if _nd(o): return NotImplemented
+        if _nd(o): return _bcast(operator.le, self, o)
         return SB(self.e <= lift(o))
     def __gt__(self, o):
-        if _nd(o): return NotImplemented
+        if _nd(o): return _bcast(operator.gt, self, o)
         return SB(self.e > lift(o))
     def __ge__(self, o):
-        if _nd(o): return NotImplemented
+        if _nd(o): return _bcast(operator.ge, self, o)
         return SB(self.e >= lift(o))
     def __eq__(self, o):
-        if _nd(o): return NotImplemented
+        if _nd(o): return _bcast(operator.eq, self, o)
         if o is None: return False
         return SB(self.e == lift(o))
     def __ne__(self, o):
-        if _nd(o): return NotImplemented
+        if _nd(o): return _bcast(operator.ne, self, o)
         if o is None: return True
         return SB(self.e != lift(o))
     def __bool__(self): return ENG.branch(self.e != 0)
